@@ -73,3 +73,16 @@ type G[T any] struct {
 
 //go:noinline
 func (g *G[T]) M(a int) int { return w(a) + 800 + g.Tag }
+
+// M has a pointer-receiver method (mocked through Struct(&M{})) and a value-receiver method (mocked through Struct(M{})):
+// one builder addresses the same struct type through both kinds of instance.
+type M struct {
+	Tag int
+	Y   [2]int
+}
+
+//go:noinline
+func (m *M) P(a int) int { return w(a) + 900 + m.Tag }
+
+//go:noinline
+func (m M) Q(a int) int { return w(a) + 1000 + m.Tag }
